@@ -65,7 +65,7 @@ Instances ==
   \* an unknown serialize_all style
   \cup {Inst("unknown_style", d, "serialize_all", s, "", FALSE) : d \in UsesEnumKw("serialize_all"), s \in {"Snake_Case", "", "kebabcase"}}
   \* only one of parse_err_ty / parse_err_fn
-  \cup {Inst("lone_parse_err", "EnumString", k, "", "", FALSE) : k \in {"parse_err_ty", "parse_err_fn"}}
+  \cup {Inst("lone_parse_err", "EnumString", k, s, "", FALSE) : k \in {"parse_err_ty", "parse_err_fn"}, s \in {"", "with_default_first", "with_default_last"}}
   \* an unsupported property literal
   \cup {Inst("prop_literal", "EnumProperty", "props", s, p, FALSE) : s \in {"float", "char", "bytestr", "byte"}, p \in {"first", "last"}}
   \* an unknown keyword
